@@ -791,3 +791,45 @@ func parses(text string) (ok bool) {
 	_, err := path.Parse(text)
 	return err == nil
 }
+
+// StormScenario is the directed family for code that is only unsafe while a
+// long, non-synchronising computation of another caller is in progress: eight
+// tasks parse, scan and unmarshal long texts (one of them ends in a literal
+// on which Parse panics, as it does on the unchanged tree) in lock-step
+// windows, so that many Parse calls really overlap in time. Window mode only.
+func StormScenario(idx int) *Scenario {
+	long := "$[*] ? ("
+	for i := 0; i < 40; i++ {
+		if i > 0 {
+			long += " || "
+		}
+		long += fmt.Sprintf("@.a%d == %d", (i+idx)%9, i)
+	}
+	longOK := long + ")"
+	longBad := long + " || @ > 99999999999999999999)"
+	longSyntax := long + " || )"
+	sc := &Scenario{Version: 1, Property: "C19", Seed: uint64(idx), Mode: "window", Start: "2021-03-10T09:30:00Z",
+		Paths: []string{longOK, longBad, longSyntax, "$.a", poolPaths[idx%len(poolPaths)].Text},
+		Docs:  []DocSpec{{JSON: `[{"a1":1},{"a2":2}]`}}, Vars: []DocSpec{{JSON: poolVars[1]}}, Note: "parse storm family"}
+	kinds := [][]OpSpec{
+		{{Kind: "parse", Path: 0}, {Kind: "scan", Path: 3, Path2: 1}, {Kind: "parse", Path: 0}, {Kind: "unmarshal", Path: 3, Path2: 0}},
+		{{Kind: "scan", Path: 3, Path2: 1}, {Kind: "parse", Path: 0}, {Kind: "parse", Path: 2}, {Kind: "parse", Path: 0}},
+		{{Kind: "parse", Path: 0}, {Kind: "parse", Path: 4}, {Kind: "scan", Path: 3, Path2: 1}, {Kind: "parsequery", Path: 0, Doc: 0, Vars: -1}},
+		{{Kind: "unmarshal", Path: 3, Path2: 1}, {Kind: "parse", Path: 0}, {Kind: "scan", Path: 4, Path2: 0}, {Kind: "parse", Path: 1}},
+	}
+	for t := 0; t < 8; t++ {
+		var ts TaskSpec
+		for r := 0; r < 6; r++ {
+			for _, o := range kinds[(t+r+idx)%len(kinds)] {
+				o.Vars = -1
+				ts.Ops = append(ts.Ops, o)
+			}
+		}
+		sc.Tasks = append(sc.Tasks, ts)
+	}
+	all := []int{0, 1, 2, 3, 4, 5, 6, 7}
+	for w := 0; w < 80; w++ {
+		sc.Schedule = append(sc.Schedule, Window{Tasks: all})
+	}
+	return sc
+}
